@@ -13,9 +13,11 @@ ANCHOR_FILES = ["aw_transform/union_no_overlap.py"]
 REQUIRED_COUNTERS = ["monitor.union_no_overlap"]
 RULE = ("pairs of time-sorted internally non-overlapping event lists on a ms grid, 0-8 events a side (one event "
         "spanning several of the other list both ways, containment both ways, shared edges, zero-length events, "
-        "empty lists); non-trivial = some list-one and list-two event overlap for a positive time; signature = set "
+        "empty lists; list-two ends 1-999 µs after an edge of list one); non-trivial = some list-one and list-two event overlap for a positive time; signature = set "
         "of Allen relations between the lists + flags (one-spans-many, two-spans-many, zero-length in one/two)")
-ASSUMPTIONS = ["interval edges are millisecond aligned: an Event cannot START between milliseconds, so no implementation could return exact pieces for sub-millisecond ends (C09 states this granularity explicitly)",
+ASSUMPTIONS = ["the edges of list one are millisecond aligned: an Event cannot START between milliseconds, so no implementation could "
+               "return exact pieces when a cut point (always a list-one edge) lies between milliseconds (C09 states this granularity "
+               "explicitly); list-two events may END between milliseconds - a third of the cases have such ends, 1-999 µs past the grid",
                "domain: each list sorted by timestamp as given, pairwise non-overlapping (closed ends may touch), durations >= 0"]
 
 
@@ -30,7 +32,8 @@ def _sorted_disjoint(events):
 
 
 def pre_unol(events1, events2):
-    return is_event_list(events1) and is_event_list(events2) and _sorted_disjoint(events1) and _sorted_disjoint(events2)
+    return (is_event_list(events1) and is_event_list(events2) and _sorted_disjoint(events1) and _sorted_disjoint(events2)
+            and all(iv(e)[1] % 1000 == 0 for e in events1))
 
 
 def _k(e):
@@ -129,7 +132,15 @@ def gen_case(rng, ctx):
         b = [(rng.randrange(0, 3), span - rng.randrange(0, 3))]
     elif r < 0.27 and a:
         b = list(a)
-    return dict(a=_specs(rng, a, base, unit, 100), b=_specs(rng, b, base, unit, 200))
+    sa, sb = _specs(rng, a, base, unit, 100), _specs(rng, b, base, unit, 200)
+    if rng.random() < 0.35:
+        # list-two events that end between milliseconds (durations keep microseconds although timestamps do not):
+        # every cut point is still an edge of list one, so exact pieces remain possible
+        for i, sp in enumerate(sb):
+            room = sb[i + 1]["ts"] - (sp["ts"] + sp["dur"]) if i + 1 < len(sb) else 10**6
+            if room >= 1000 and rng.random() < 0.6:
+                sp["dur"] += rng.choice([1, 400, 700, 999, rng.randrange(1, 1000)])
+    return dict(a=sa, b=sb)
 
 
 def mechanism(one, two):
